@@ -754,4 +754,64 @@ theorem d12b_example :
         pure c2)) (St [0x02, 0x01, 0x80, 0x00, 0x00] none) =
       .ok (([0x02, 0x01, 0x80], ⟨.done, .cer, 2⟩), St [] none) := by rfl
 
+/-! ### C09 under an open capture -/
+
+/-- **absence leaves everything untouched, also while a capture is open** (C09's statements are for
+    sources without open capture; `framable_pnv` carries them under any stack of capture frames):
+    an optional read that reports absence has not moved the source, has not added to the capture,
+    and has left the `Constructed` as it was — unless it closed an indefinite value -/
+theorem absent_untouched_under_capture {α : Type} (c c' : Cons) (e : Option Tag)
+    (op : Tag → Content → Prog (α × Content)) (hop : ∀ t k, Framable (op t k))
+    (d : Bytes) (l : Option Nat) (f : Frame) (fs : List Frame) (g' : G0)
+    (hpost : ∀ g1, runG0 (processNextValue c e op) (St d l) = .ok ((none, c'), g1) →
+      (g1 = St d l ∧ c' = c) ∨ (c.state = .indefinite ∧ c'.state = .done))
+    (h : runG0 (processNextValue c e op) ⟨d, l, f :: fs⟩ = .ok ((none, c'), g')) :
+    (g' = ⟨d, l, f :: fs⟩ ∧ c' = c) ∨ (c.state = .indefinite ∧ c'.state = .done) := by
+  rw [((framable_pnv c e op hop).run d l f fs).1] at h
+  cases hr : runG0 (processNextValue c e op) ⟨d, l, []⟩ with
+  | error err => rw [hr] at h; cases h
+  | ok x =>
+    obtain ⟨⟨a, c1⟩, g1⟩ := x
+    rw [hr] at h
+    simp only [Except.ok.injEq, Prod.mk.injEq] at h
+    obtain ⟨⟨rfl, rfl⟩, rfl⟩ := h
+    rcases hpost g1 hr with ⟨rfl, rfl⟩ | h2
+    · exact .inl ⟨by simp [framed], rfl⟩
+    · exact .inr h2
+
+/-- the untagged optional readers, under any open captures -/
+theorem absent_untouched_framed {α : Type} (c c' : Cons) (op : Tag → Content → Prog (α × Content))
+    (hop : ∀ t k, Framable (op t k)) (d : Bytes) (l : Option Nat) (f : Frame) (fs : List Frame) (g' : G0)
+    (h : runG0 (processNextValue c none op) ⟨d, l, f :: fs⟩ = .ok ((none, c'), g')) :
+    (g' = ⟨d, l, f :: fs⟩ ∧ c' = c) ∨ (c.state = .indefinite ∧ c'.state = .done) := by
+  refine absent_untouched_under_capture c c' none op hop d l f fs g' (fun g1 h1 => ?_) h
+  rcases absent_untouched c c' op (St d l) g1 rfl h1 with ⟨h2, h3⟩ | h2
+  · exact .inl ⟨h2, h3⟩
+  · obtain ⟨_, _, _, _, _, _, _, hs, hc', _⟩ := h2
+    exact .inr ⟨hs, by rw [hc']⟩
+
+/-- the tag-selective optional readers (any tag but end-of-contents), under any open captures:
+    absence means untouched, full stop -/
+theorem absent_untouched_if_framed {α : Type} (c c' : Cons) (cls num : Nat) (hc : cls ≤ 3) (hn : num ≤ 0x1fffff)
+    (hne : ¬ (cls = 0 ∧ num = 0)) (op : Tag → Content → Prog (α × Content))
+    (hop : ∀ t k, Framable (op t k)) (d : Bytes) (l : Option Nat) (f : Frame) (fs : List Frame) (g' : G0)
+    (h : runG0 (processNextValue c (some (C12.tagOf cls num)) op) ⟨d, l, f :: fs⟩ = .ok ((none, c'), g')) :
+    g' = ⟨d, l, f :: fs⟩ ∧ c' = c := by
+  have := absent_untouched_under_capture c c' (some (C12.tagOf cls num)) op hop d l f fs g' (fun g1 h1 => by
+    exact .inl (absent_untouched_if_ne c c' cls num hc hn hne op (St d l) g1 rfl h1)) h
+  rcases this with h1 | ⟨_, h2⟩
+  · exact h1
+  · -- the alternative cannot occur: the base run left the `Constructed` unchanged
+    rw [((framable_pnv c _ op hop).run d l f fs).1] at h
+    cases hr : runG0 (processNextValue c (some (C12.tagOf cls num)) op) ⟨d, l, []⟩ with
+    | error err => rw [hr] at h; cases h
+    | ok x =>
+      obtain ⟨⟨a, c1⟩, g1⟩ := x
+      rw [hr] at h
+      simp only [Except.ok.injEq, Prod.mk.injEq] at h
+      obtain ⟨⟨rfl, rfl⟩, rfl⟩ := h
+      obtain ⟨e1, e2⟩ := absent_untouched_if_ne c c1 cls num hc hn hne op (St d l) g1 rfl hr
+      subst e1; subst e2
+      exact ⟨by simp [framed], rfl⟩
+
 end Bcder.Props.C11c
